@@ -11,8 +11,8 @@ from .common import jdump, sig_hash
 from .plans import PLANS, RULES, COMPONENTS, ASSUMPTIONS, REQUIRED_PROBES
 
 VERIF = runner.VERIF
-REPLAY_DIR = os.path.join(VERIF, "out", "replays")
-EVIDENCE_DIR = os.path.join(VERIF, "evidence")
+REPLAY_DIR = os.environ.get("VERIF_REPLAY_DIR", os.path.join(VERIF, "out", "replays"))
+EVIDENCE_DIR = os.environ.get("VERIF_EVIDENCE_DIR", os.path.join(VERIF, "evidence"))
 
 
 def _repo():
